@@ -1328,6 +1328,16 @@ class Controller:
             )
             return None
 
+        if self.link.find_classic_controller(command.bd_addr) is None:
+            # Nobody answers the page
+            self._send_hci_command_status(
+                hci.HCI_COMMAND_STATUS_PENDING, command.op_code
+            )
+            self.on_classic_connection_complete(
+                command.bd_addr, hci.HCI_ErrorCode.PAGE_TIMEOUT_ERROR
+            )
+            return None
+
         self.classic_connections[command.bd_addr] = Connection(
             controller=self,
             handle=0,
